@@ -107,7 +107,10 @@ func permissionInterceptor(w http.ResponseWriter, r *http.Request) bool {
 	userName := r.Header.Get(usernameHeaderKey)
 	u := auth.Get(userName)
 
-	streamPath, _ := extractStreamPathAndExt(r.URL.Path)
+	streamPath, ext := extractStreamPathAndExt(r.URL.Path)
+	if ext == ".ts" { // hls 片段的地址是 <流路径>/<序号>.ts，权限按流路径判断
+		streamPath = path.Dir(streamPath)
+	}
 
 	if u == nil || !u.ValidatePermission(streamPath, auth.PullRight) {
 		http.Error(w, http.StatusText(http.StatusForbidden), http.StatusForbidden)
